@@ -11,6 +11,7 @@ from ..report import Check
 from ..sym import Resolver, Term, path_of, show, walk
 from ..tables import function_factory
 from . import c08, c16, loaders, pushdown, shunting, wiring
+from .activation_sem import activation_semantics
 from .common import const_value, iter_base, iter_precedes, loc, loops_over, strip
 
 EXPLANATION = (
@@ -54,7 +55,7 @@ def run(check: Check) -> None:
     wiring.p3_weight(check)
     wiring.p10_activation_degree_lookup(check)  # "for an output variable, the aggregated activation of that term"
     for cls in c08.ACTIVATIONS:  # "the connectives are computed with the rule block's conjunction and disjunction operators"
-        c08.operator_wiring(c08.Activate(check, cls), roles=("conjunction", "disjunction"))
+        activation_semantics(check, cls, ("conjunction", "disjunction"))
     x1_format_infix(check)
     check.exhaustive_parts += ["pop rule over all orderings", "antecedent automaton x grammar automaton", "dispatch cases of activation_degree"]
 
